@@ -790,6 +790,8 @@ func (x *Exec) havocAssign(st, pre *State, env *cenv, bound map[string]SV, n *No
 // spec environment over an execution state
 
 type cenv struct {
+	prevSt    *State // loop step clauses: state and names at the header of the current iteration
+	prevNames map[string]Value
 	x        *Exec
 	st       *State
 	old      *State
@@ -1106,7 +1108,7 @@ func (c *cenv) TypedUF(name string) ([]types.Type, types.Type, bool) {
 		case "sigOK":
 			return []types.Type{iface, bz, bz}, types.Typ[types.Bool], true
 		}
-	case "tmPk":
+	case "tmPk", "cmtPubKey":
 		cp := c.x.L.Prog.ImportedPackage("github.com/cometbft/cometbft/proto/tendermint/crypto")
 		if cp == nil || cp.Type("PublicKey") == nil {
 			return nil, nil, false
@@ -1136,6 +1138,16 @@ func (c *cenv) TypedUF(name string) ([]types.Type, types.Type, bool) {
 		return []types.Type{types.Typ[types.Int]}, types.Typ[types.Int64], true
 	}
 	return nil, nil, false
+}
+
+// Prev gives the environment at the loop header of the current iteration (loop step clauses).
+func (c *cenv) Prev() (SpecEnv, bool) {
+	if c.prevSt == nil {
+		return c, false
+	}
+	n := *c
+	n.st, n.names = c.prevSt, c.prevNames
+	return &n, true
 }
 
 // AtCall gives the environment in which the last by-contract call of fn on this path was made ($at).
